@@ -8,48 +8,37 @@ Import ListNotations.
 Section Tie.
   Variable D : Dom.
 
+  (* The translator normalises every function body to a chain of SIf <atomic test>; on such
+     a chain the interpreter reduces by computation to nested if-then-else.  The remaining
+     differences a harmless rewrite of the source can introduce (order of guards that raise
+     the same exception, a test repeated) are removed by case analysis on the tests. *)
+  Ltac tie_auto :=
+    cbv beta iota zeta delta [run test cmp eval evals bind nth app
+                              g_map_range g_pct_to_dbfs g_dbfs_to_pct g_facade_read g_facade_write
+                              map_range pct_to_dbfs dbfs_to_pct in_range pdiv zero
+                              DBFS_MIN DBFS_MAX PERCENTAGE_MIN PERCENTAGE_MAX MUTED andb];
+    repeat match goal with
+           | |- context [if ?c then _ else _] => destruct c eqn:?
+           end;
+    try reflexivity; try congruence.
+
   Lemma tie_map_range v a b c d :
     run D g_map_range [v; a; b; c; d] = map_range D v a b c d.
-  Proof.
-    unfold map_range, pdiv, zero. cbn. unfold pdiv, zero.
-    destruct (dle D (dsub D b a) (dZ D 0)) eqn:E1; [reflexivity|].
-    destruct (dle D (dsub D d c) (dZ D 0)) eqn:E2; [reflexivity|].
-    cbn. destruct (dlt D v a) eqn:E3; [reflexivity|].
-    cbn. destruct (dlt D b v) eqn:E4; [reflexivity|].
-    cbn. destruct (deq D (dsub D b a) (dZ D 0)); reflexivity.
-  Qed.
+  Proof. tie_auto. Qed.
 
   Lemma tie_pct_to_dbfs x : run D g_pct_to_dbfs [x] = pct_to_dbfs D x.
-  Proof.
-    unfold pct_to_dbfs, g_pct_to_dbfs, zero. cbn -[g_map_range map_range]. unfold zero.
-    destruct (deq D x (dZ D 0)) eqn:E; [reflexivity|].
-    cbn -[g_map_range map_range]. apply tie_map_range.
-  Qed.
+  Proof. tie_auto. Qed.
 
   Lemma tie_dbfs_to_pct x : run D g_dbfs_to_pct [x] = dbfs_to_pct D x.
-  Proof.
-    unfold dbfs_to_pct, g_dbfs_to_pct, DBFS_MIN, DBFS_MAX, PERCENTAGE_MIN, PERCENTAGE_MAX. cbn -[g_map_range map_range].
-    destruct (dlt D x (dZ D (-30))) eqn:E1; [reflexivity|].
-    cbn -[g_map_range map_range].
-    destruct (dlt D (dZ D 0) x) eqn:E2; [reflexivity|].
-    cbn -[g_map_range map_range]. apply tie_map_range.
-  Qed.
+  Proof. tie_auto. Qed.
 
   Definition guarded (v : T D) : res (T D) := if in_range D v then Ok v else Raise ProtocolError.
 
   Lemma tie_facade_read v : run D g_facade_read [v] = guarded v.
-  Proof.
-    unfold guarded, in_range. cbn. unfold zero.
-    destruct (dle D (dZ D 0) v); cbn; [|reflexivity].
-    destruct (dle D v (dZ D 100)); reflexivity.
-  Qed.
+  Proof. unfold guarded. tie_auto. Qed.
 
   Lemma tie_facade_write v : run D g_facade_write [v] = guarded v.
-  Proof.
-    unfold guarded, in_range. cbn. unfold zero.
-    destruct (dle D (dZ D 0) v); cbn; [|reflexivity].
-    destruct (dle D v (dZ D 100)); reflexivity.
-  Qed.
+  Proof. unfold guarded. tie_auto. Qed.
 
   Lemma tie_raop_up v : run D g_raop_volume_up [v] = Ok (step_up D v).
   Proof. reflexivity. Qed.
